@@ -635,6 +635,35 @@ def extract_graph(X, builds):
                 mt = getattr(e.parser_config, "match", None)
                 if isinstance(mt, str) and any(ch.isalpha() for ch in mt):
                     case_sensitive.add(mt)
+    # ---- terminals: which of them are of a kind the engine model has (literal, keyword, character-class word,
+    #      quoted text), and the regular expressions that are not (pinned in Ref.lean: a NEW complex terminal — one that
+    #      could, say, match across white space — breaks the obligation `terminals_pinned`)
+    import re as _re
+    term_kinds = {}
+    other_terms = set()
+    for (name, ac), parser in builds.items():
+        for e in walk_graph(parser.element):
+            tn = type(e).__name__
+            if tn in ("Literal", "SingleCharLiteral", "CaselessLiteral"):
+                term_kinds["lit"] = term_kinds.get("lit", 0) + 1
+            elif tn in ("Keyword", "CaselessKeyword"):
+                term_kinds["kw"] = term_kinds.get("kw", 0) + 1
+            elif tn in ("Char", "Word"):
+                term_kinds["word"] = term_kinds.get("word", 0) + 1
+            elif tn in ("Regex",):
+                rx = getattr(e.parser_config, "regex", None) or getattr(e, "regex", None)
+                pat = rx.pattern if rx is not None and hasattr(rx, "pattern") else ""
+                m = _re.fullmatch(r"(\\?.)\(\?:\1\1\|\[\^(\\?.)\]\)\*\1", pat)
+                if m and m.group(1).lstrip("\\") == m.group(2).lstrip("\\"):
+                    term_kinds["quoted"] = term_kinds.get("quoted", 0) + 1
+                elif _re.fullmatch(r"\[[^\]]*\](?:\[[^\]]*\][*+]?)?[*+]?", pat):
+                    term_kinds["word"] = term_kinds.get("word", 0) + 1
+                else:
+                    other_terms.add(pat)
+            elif tn in ("SkipTo", "StringEnd", "LineEnd", "AnyChar", "NoMatch", "CharsNotIn", "White"):
+                other_terms.add("<" + tn + ">")
+    X.data["terminal_kinds"] = term_kinds
+    X.data["other_terminals"] = sorted(other_terms)
     X.data["ws_engines"] = sorted(engines)
     X.data["ws_kinds"] = ws_kinds
     X.data["ws_offending"] = sorted(offending)
@@ -675,6 +704,8 @@ def gen_graph_lean(X):
     lines += ["/-- the whitespace engines found in the graphs: (kind, regular expression, flags) -/",
               "def wsEngines : List (String × String × String) := [%s]" % ", ".join(
                   "(%s, %s, %s)" % (lean_str(k), lean_str(p), lean_str(f)) for k, p, f in X.data.get("ws_engines", [])), ""]
+    lines += lst("otherTerminals", "regular-expression terminals of the grammar graphs that are not of a kind the engine model has (literal, keyword, character-class word, quoted text)",
+                 X.data.get("other_terminals", []))
     lines += lst("dialectDiff", "node signatures (type|name|match|regex|actions) by which each dialect's grammar graph differs from the common one",
                  X.data.get("dialect_diff", []))
     lines += lst("parseActions", "names of all parse actions attached anywhere in the grammar graphs",
